@@ -27,6 +27,7 @@ THEOREMS = [
     "PorepyVerif.C19.polygon_identities",
     "PorepyVerif.C19.oriented_check_closed",
     "PorepyVerif.C19.oriented_grid_cells_closed",
+    "PorepyVerif.C19.oriented_grid_divergence",
     "PorepyVerif.C19.convex_ccw_area_pos",
     "PorepyVerif.C19.volumes_nonneg",
     "PorepyVerif.C19.cart_cell_area",
@@ -39,11 +40,16 @@ THEOREMS = [
     "PorepyVerif.C19.volume_identity_3d",
     "PorepyVerif.C19.tet_closed_cell_3d",
     "PorepyVerif.C19.tet_volume_identity_3d",
+    "PorepyVerif.C19.cart3_cell_volume",
+    "PorepyVerif.C19.cart_volumes_sum_3d",
+    "PorepyVerif.C19.centroid_identity_3d",
+    "PorepyVerif.C19.centroid_identity_3d_div",
+    "PorepyVerif.C19.tet_centroid_identity_3d",
 ]
 LEAN_MODULES = ["PorepyVerif.C19.Props"]
 AUDIT = "PorepyVerif/C19/Audit.lean"
 DRIVER = "PorepyVerif/C19/Driver.lean"
-N = {"quick": 110, "thorough": 2000}
+N = {"quick": 80, "thorough": 2000}
 RULE = ("grids of dimension 1-3 from CartGrid / TensorGrid / StructuredTriangleGrid / StructuredTetrahedralGrid / TriangleGrid "
         "(given or Delaunay triangulation, counter-clockwise, clockwise or mixed cell orientation) / TetrahedralGrid (Delaunay) / "
         "generic pp.Grid (star-shaped and convex polygons with random face directions, merged Cartesian cells giving L-shapes and "
@@ -57,11 +63,14 @@ TRUSTED = [
     "the legacy (non-oriented) 2-D path is executable in the model and compared, but the identities are proved for the oriented path only; "
     "in the legacy path the model uses plane normal +z (the result does not depend on it unless the two sides of a face disagree)",
     "3-D: face centre and face area use |sub_normal| = |sub_normal . N| / |N| (exact for planar faces); non-planar faces: only normals and "
-    "volumes are compared; the general 3-D theorems assume 'directed edges pair up' (closed surface) and planar star-shaped faces",
+    "volumes are compared; the general 3-D theorems assume 'directed edges pair up' (closed surface, EdgePaired), planar star-shaped "
+    "non-degenerate faces (PlanarStar) and, for the centroid identity, nodes in the face plane (NodesPlanar); these hypotheses are proved for "
+    "tetrahedra and Cartesian hexahedra, for other polyhedra they are assumptions on the grid",
     "1-D: the unit tangent is carried as direction + squared length; the flip test is modelled for collinear nodes",
     "embedded (non axis-aligned) 1-D / 2-D grids are covered by the oracle only (normalisation of the plane normal is a square root)",
-    "constructors: TensorGrid._create_2d_grid is modelled cell by cell (tensorCells) and compared; the other constructors enter through the "
-    "topology of the real grid object that is handed to the model",
+    "constructors: TensorGrid._create_2d_grid / _create_3d_grid are modelled cell by cell (tensorCells, tensorCells3: node order and signs of "
+    "every face of every cell) and compared exactly; the other constructors enter through the topology of the real grid object that is "
+    "handed to the model, plus the expectation that grids whose construction implies consistent loops take the oriented 2-D path",
 ]
 EXPLANATION = ("FULL in 1-D/2-D: the model is _compute_geometry_2d/_1d as coded over the rationals; closed_cell / area_identity / centroid_identity "
                "are proved for every cell whose faces pass the code's own orientation check (node incidence zero), hence for every polygon of any "
@@ -190,6 +199,11 @@ def _compute(g):
     return any("Orientations are inconsistent" in str(x.message) for x in w)
 
 
+def _tensor_tie(case):
+    """TensorGrid constructor modelled cell by cell (2-D and 3-D)"""
+    return case["kind"] == "tensor" and case["dim"] in (2, 3) and not case.get("flip_faces") and not case.get("flip_signs")
+
+
 def _model_dim(case):
     """which model op covers the case (None: oracle only)"""
     return None if case.get("embedded") else case["dim"]
@@ -204,13 +218,18 @@ def impl_run(case):
         return err_kind(e)
     md = _model_dim(case)
     out = {}
-    if case["kind"] == "tensor" and case["dim"] == 2 and not case.get("flip_faces") and not case.get("flip_signs"):
-        # cell-by-cell content of the constructor (before perturbation / maps): start, end, sign of W, E, S, N
-        g0 = _build({"kind": "tensor", "dim": 2, "coords": case["coords"]})
+    if _tensor_tie(case):
+        # cell-by-cell content of the constructor (before perturbation / maps): per cell the faces in cell_faces order with their
+        # nodes in face_nodes order (coordinates) and sign
+        g0 = _build({"kind": "tensor", "dim": case["dim"], "coords": case["coords"]})
         faces, cells = _topology(g0)
         x = g0.nodes
-        out["tensor_cells"] = [[[frac(x[0, faces[f][0]]), frac(x[1, faces[f][0]]), frac(x[0, faces[f][1]]), frac(x[1, faces[f][1]]), frac(s)]
-                                for f, s in c] for c in cells]
+        if case["dim"] == 2:
+            out["tensor_cells"] = [[[frac(x[0, faces[f][0]]), frac(x[1, faces[f][0]]), frac(x[0, faces[f][1]]), frac(x[1, faces[f][1]]), frac(s)]
+                                    for f, s in c] for c in cells]
+        else:
+            out["tensor_cells"] = [[{"nodes": [[frac(x[0, n]), frac(x[1, n]), frac(x[2, n])] for n in faces[f]], "sign": frac(s)}
+                                    for f, s in c] for c in cells]
     if md is None:
         return out
     fin = all(np.all(np.isfinite(a)) for a in (g.cell_volumes, g.cell_centers, g.face_normals, g.face_areas, g.face_centers))
@@ -250,8 +269,11 @@ def impl_run(case):
 
 def model_ops(case):
     ops = []
-    if case["kind"] == "tensor" and case["dim"] == 2 and not case.get("flip_faces") and not case.get("flip_signs"):
-        ops.append({"op": "tensor2", "xs": case["coords"][0], "ys": case["coords"][1]})
+    if _tensor_tie(case):
+        if case["dim"] == 2:
+            ops.append({"op": "tensor2", "xs": case["coords"][0], "ys": case["coords"][1]})
+        else:
+            ops.append({"op": "tensor3", "xs": case["coords"][0], "ys": case["coords"][1], "zs": case["coords"][2]})
     md = _model_dim(case)
     if md is None:
         return ops
@@ -316,8 +338,10 @@ def compare(impl, model, case):
         if d:
             return d
         # the model's volume sum of the tensor constructor equals the product of the extents
-        xs, ys = [F(x) for x in case["coords"][0]], [F(x) for x in case["coords"][1]]
-        if F(model["_tensor_volume_sum"]) != (xs[-1] - xs[0]) * (ys[-1] - ys[0]):
+        ext = Fraction(1)
+        for c in case["coords"]:
+            ext *= F(c[-1]) - F(c[0])
+        if F(model["_tensor_volume_sum"]) != ext:
             return "model tensor volume sum differs from product of extents"
     if "expect_oriented" in case and isinstance(impl, dict) and "oriented" in impl and impl["oriented"] != case["expect_oriented"]:
         return (f"grid built by {case['kind']} takes the {'oriented' if impl['oriented'] else 'legacy'} path of _compute_geometry_2d, "
